@@ -9,14 +9,17 @@ Import ListNotations.
 
 Inductive gkind :=
 | KI | KX | KY | KZ | KH | KS | KSdag | KSqrtX | KSqrtXdag | KSqrtY | KSqrtYdag | KT | KTdag
-| KRX | KRY | KRZ | KU1 | KU2 | KU3 | KCNOT | KCZ | KSWAP | KTOFFOLI.
+| KRX | KRY | KRZ | KU1 | KU2 | KU3 | KCNOT | KCZ | KSWAP | KTOFFOLI
+(* native gates of quri_parts.quantinuum.circuit and quri_parts.ionq.circuit *)
+| KU1q | KZZ | KRZZ | KXX | KGPi | KGPi2 | KMS.
 
 Definition gkind_eqb (a b : gkind) : bool :=
   match a, b with
   | KI,KI | KX,KX | KY,KY | KZ,KZ | KH,KH | KS,KS | KSdag,KSdag | KSqrtX,KSqrtX
   | KSqrtXdag,KSqrtXdag | KSqrtY,KSqrtY | KSqrtYdag,KSqrtYdag | KT,KT | KTdag,KTdag
   | KRX,KRX | KRY,KRY | KRZ,KRZ | KU1,KU1 | KU2,KU2 | KU3,KU3 | KCNOT,KCNOT | KCZ,KCZ
-  | KSWAP,KSWAP | KTOFFOLI,KTOFFOLI => true
+  | KSWAP,KSWAP | KTOFFOLI,KTOFFOLI
+  | KU1q,KU1q | KZZ,KZZ | KRZZ,KRZZ | KXX,KXX | KGPi,KGPi | KGPi2,KGPi2 | KMS,KMS => true
   | _, _ => false
   end.
 
@@ -56,6 +59,13 @@ Definition bits_eqb (x y : list bool) : bool :=
 (* permutation-with-phase matrices: entry (x,y) = ph y if x = f y *)
 Definition mperm (k : nat) (f : list bool -> list bool) (ph : list bool -> LP) : FM LP :=
   fun x y => if (Nat.eqb (length y) k && bits_eqb x (f y))%bool then ph y else lp0.
+
+(* 4 x 4 matrices given entry-wise: row bits (a, b), column bits (c, d), first bit = first qubit of the gate *)
+Definition m4 (f : bool -> bool -> bool -> bool -> LP) : FM LP := fun x y =>
+  match x, y with
+  | [a; b], [c; d] => f a b c d
+  | _, _ => lp0
+  end.
 
 Definition one := cz 1.
 Definition mone := cz (-1).
@@ -99,6 +109,32 @@ Definition gmat (k : gkind) (as_ : list ang) : FM LP * nat :=
   | KSWAP, _ => (mperm 2 (fun y => match y with [a; b] => [b; a] | _ => y end) (fun _ => one), 0)
   | KTOFFOLI, _ => (mperm 3 (fun y => match y with [c1; c2; t] => [c1; c2; xorb t (c1 && c2)] | _ => y end)
                       (fun _ => one), 0)
+  (* U1q(th, phi) = cos(th/2) - i sin(th/2) (cos phi X + sin phi Y) *)
+  | KU1q, [th; phi] =>
+      let t := ang_exp_half th in let tb := lp_conj t in
+      let p := ang_exp phi in let pb := lp_conj p in
+      let c2 := lp_add t tb in                      (* 2 cos(th/2) *)
+      let s2 := lp_mul (lp_opp ci) (lp_sub t tb) in (* 2 sin(th/2) *)
+      (m2 c2 (lp_mul (lp_opp ci) (lp_mul pb s2)) (lp_mul (lp_opp ci) (lp_mul p s2)) c2, 2)
+  (* ZZ = exp(-i pi/4 Z Z) ~ diag(1, i, i, 1);  RZZ(th) = exp(-i th/2 Z Z) ~ diag(1, u, u, 1) *)
+  | KZZ, _ => (m4 (fun a b c d => if Bool.eqb a c && Bool.eqb b d then (if xorb a b then ci else one) else lp0), 0)
+  | KRZZ, [a0] => let u := ang_exp a0 in
+      (m4 (fun a b c d => if Bool.eqb a c && Bool.eqb b d then (if xorb a b then u else one) else lp0), 0)
+  (* XX(phi) = cos phi - i sin phi X X *)
+  | KXX, [a0] => let u := ang_exp a0 in let ub := lp_conj u in
+      (m4 (fun a b c d => if Bool.eqb a c && Bool.eqb b d then lp_add u ub
+                          else if Bool.eqb a (negb c) && Bool.eqb b (negb d) then lp_sub ub u else lp0), 2)
+  (* IonQ (angles in radians): GPi(phi) = [[0, e^-i phi], [e^i phi, 0]], GPi2(phi) = (1 - i GPi(phi)) / sqrt 2,
+     MS(phi0, phi1) = (1 - i GPi(phi0) x GPi(phi1)) / sqrt 2 *)
+  | KGPi, [phi] => let p := ang_exp phi in (m2 lp0 (lp_conj p) p lp0, 0)
+  | KGPi2, [phi] => let p := ang_exp phi in
+      (m2 one (lp_mul (lp_opp ci) (lp_conj p)) (lp_mul (lp_opp ci) p) one, 1)
+  | KMS, [phi0; phi1] =>
+      let p0 := ang_exp phi0 in let p1 := ang_exp phi1 in
+      (m4 (fun a b c d => if Bool.eqb a c && Bool.eqb b d then one
+                          else if Bool.eqb a (negb c) && Bool.eqb b (negb d)
+                               then lp_mul (lp_opp ci) (lp_mul (if a then p0 else lp_conj p0) (if b then p1 else lp_conj p1))
+                               else lp0), 1)
   | _, _ => (fun _ _ => lp0, 0)
   end.
 
@@ -107,9 +143,9 @@ Definition eg (g : gate) : egate :=
 
 (* arity discipline of a gate: what the library's factory functions guarantee *)
 Definition arity (k : gkind) : nat :=
-  match k with KCNOT | KCZ | KSWAP => 2 | KTOFFOLI => 3 | _ => 1 end.
+  match k with KCNOT | KCZ | KSWAP | KZZ | KRZZ | KXX | KMS => 2 | KTOFFOLI => 3 | _ => 1 end.
 Definition nparams (k : gkind) : nat :=
-  match k with KRX | KRY | KRZ | KU1 => 1 | KU2 => 2 | KU3 => 3 | _ => 0 end.
+  match k with KRX | KRY | KRZ | KU1 | KRZZ | KXX | KGPi | KGPi2 => 1 | KU2 | KU1q | KMS => 2 | KU3 => 3 | _ => 0 end.
 Definition gate_wfb (g : gate) : bool :=
   Nat.eqb (length (gqs g)) (arity (gk g)) && Nat.eqb (length (gas g)) (nparams (gk g)) && nodupb (gqs g).
 
